@@ -307,9 +307,10 @@ class Stabilizer(StateRepresentationBase):
         :return: nothing
         :rtype: None
         """
+        keep = [q for q in range(self.n_qubits) if q not in qubit_positions]
         self._tableau = sfc.partial_trace(
             self._tableau,
-            keep=qubit_positions,
+            keep=keep,
             dims=self.n_qubits * [2],
             measurement_determinism=measurement_determinism,
         )
@@ -724,12 +725,13 @@ class MixedStabilizer(StateRepresentationBase):
         :return: nothing
         :rtype: None
         """
+        keep = [q for q in range(self.n_qubits) if q not in qubit_positions]
         self._mixture = [
             (
                 p_i,
                 sfc.partial_trace(
                     t_i,
-                    keep=qubit_positions,
+                    keep=keep,
                     dims=self.n_qubits * [2],
                     measurement_determinism=measurement_determinism,
                 ),
